@@ -11,7 +11,9 @@ From SioV Require Import Base.GoSem Eio.Packet Eio.Batcher.
 From SioV Require Eio.Limits.
 From SioV Require Import Base.Conc Sio.Pipeline.
 From SioV Require Import Sio.HandlerStore.
-From SioV Require Import Sio.EndToEnd Sio.EndToEndInst Sio.EndToEndReal Sio.EndToEndSched Sio.EndToEndRegistry.
+From SioV Require Import Sio.Json Sio.Header Sio.Binary.
+From SioV Require Sio.Codec Sio.DecodeProofs.
+From SioV Require Import Sio.EndToEnd Sio.EndToEndInst Sio.EndToEndReal Sio.EndToEndSched Sio.EndToEndRegistry Sio.EndToEndBytes.
 
 Section C01.
   (** C09/C10: Socket.IO codec. One packet = header frame + attachments; an idle decoder fed the
@@ -257,6 +259,31 @@ Section C01_real_transport.
     exact (real_ws_announced_limit name arg offset dstate name_eqb name_eqb_eq off_arg enc d0 dec_step
              C09_codec_roundtrip C09_frames_are_message_packets hs C18_registrations_distinct).
   Qed.
+
+  (** Long-polling: real payload framing (C11_payload_roundtrip: several packets per HTTP body,
+      'b' + base64 for binary; discharged), sends cut by the real batcher (C13, discharged).
+      C11's precondition on the frames is a hypothesis on the codec: bytes, and no raw record
+      separator 0x1e inside a text frame. *)
+  Hypothesis C09_frames_fit_payload : forall e, Forall poll_frame_ok (enc e).
+
+  Theorem C01_exactly_once_intact_real_polling :
+    forall (c : cfg) (ems : list (list (event name arg * offset))) tr (maxp : Z) polling
+           (accepts : bytes -> bool),
+      client_strips_offset c = false ->
+      Interleave ems tr ->
+      let frames := wire name arg offset off_arg packet enc c tr in
+      let batches := write_writable maxp polling frames in
+      within_limits packet bytes poll_pack accepts batches ->
+      sig_matches name arg hs (map fst (concat ems)) ->
+      forall h, In h hs ->
+        Permutation
+          (handed arg (hid name h)
+             (real_poll_deliveries name arg dstate name_eqb d0 dec_step hs accepts c batches))
+          (args_named name name_eqb arg (hname name h) (map fst (concat ems))).
+  Proof.
+    exact (real_polling_exactly_once name arg offset dstate name_eqb name_eqb_eq off_arg enc d0 dec_step
+             C09_codec_roundtrip hs C18_registrations_distinct C09_frames_fit_payload).
+  Qed.
 End C01_real_transport.
 
 (** * Over ALL SCHEDULES of C02's concurrent model (Sio/Pipeline.v): emitter goroutines, packet
@@ -314,3 +341,89 @@ Theorem C01_registry_hypothesis_discharged :
   forall (same : handler N -> handler N -> bool) (hs : list (handler N)) (n : N),
     store_get_all same hs n = filter (fun h => N.eqb (hname N h) n) hs.
 Proof. exact store_get_all_spec. Qed.
+
+(** * Byte level: the real Socket.IO codec (C09: [encode], [add]/[feed], [decode] of Sio/Codec.v)
+    composed with the real Engine.IO framings (C11) - no codec hypothesis left.
+
+    An emitted item is a Go value [em_x] encoded by [Sio.Codec.encode] under C09's side conditions
+    ([emitted_ok]: well-formed value tree, type EVENT, at least one binary leaf, shape
+    [name :: args], header accepted by [header_ok]); a handler is (name, parameter types) and is
+    handed what [Sio.Codec.decode] returns for its own types.  COVERED: EVENT packets carrying
+    binary (BINARY_EVENT on the wire), any depth, any namespace/ack id, handler types fitting the
+    arguments ([args_ok], as many parameters as arguments).  NOT covered (still the abstract
+    hypothesis of the theorems above): EVENT packets without a binary leaf (no C09 theorem yet) and
+    recovery-stamped events received by a handler without a parameter for the offset.
+    Assumptions left: H1-H3 on the JSON library (below: only H2 for the jprint/jparse instance)
+    and the reliability of the link. *)
+Section C01_bytes.
+  Variable marshal : jv -> bytes.
+  Variable unmarshal : bytes -> option jv.
+  Variable max_att : Z.
+  Hypothesis JSON_H1 : forall j, unmarshal (marshal j) = Some j.
+  Hypothesis JSON_H2 : forall name rest, exists tmp,
+      prescan (marshal (JArr (JStr name :: rest))) = Ok tmp /\ unmarshal tmp = Some (JArr [JStr name]).
+  Hypothesis JSON_H3 : forall l, exists r, marshal (JArr l) = 91%N :: r.
+
+  (** websocket *)
+  Theorem C01_exactly_once_intact_real :
+    forall (ems : list (list emitted)) (tr : list (nat * emitted)) batches rmax,
+      Interleave ems tr ->
+      Forall (fun it => emitted_ok marshal unmarshal max_att it /\ typable it) (concat ems) ->
+      concat batches = flat_map (fun p => raw_frames (raw_of (snd p))) tr ->
+      Forall (fun b => ws_accepts rmax (ws_pack b) = true) batches ->
+      (ws_parsed unmarshal rmax batches = map raw_of (map snd tr)
+       /\ forall i, proj i tr = nth i ems [])
+      /\ forall h,
+          (forall it, In it (concat ems) -> em_name it = bh_name h ->
+                      Sio.DecodeProofs.args_ok (bh_tys h) (em_args it) = true) ->
+          handed_b marshal unmarshal h (ws_parsed unmarshal rmax batches) = expected_b h (map snd tr)
+          /\ Permutation (handed_b marshal unmarshal h (ws_parsed unmarshal rmax batches))
+                         (expected_b h (concat ems)).
+  Proof. exact (real_websocket_bytes marshal unmarshal max_att JSON_H1 JSON_H2 JSON_H3). Qed.
+
+  (** long-polling (payload of several packets, base64 for the attachments) *)
+  Theorem C01_exactly_once_intact_real_polling_bytes :
+    forall (ems : list (list emitted)) (tr : list (nat * emitted)) batches accepts,
+      Interleave ems tr ->
+      Forall (fun it => emitted_ok marshal unmarshal max_att it /\ typable it) (concat ems) ->
+      concat batches = flat_map (fun p => raw_frames (raw_of (snd p))) tr ->
+      Forall poll_frame_ok (flat_map (fun p => raw_frames (raw_of (snd p))) tr) ->
+      Forall (fun b => accepts (poll_pack b) = true) batches ->
+      (poll_parsed unmarshal accepts batches = map raw_of (map snd tr)
+       /\ forall i, proj i tr = nth i ems [])
+      /\ forall h,
+          (forall it, In it (concat ems) -> em_name it = bh_name h ->
+                      Sio.DecodeProofs.args_ok (bh_tys h) (em_args it) = true) ->
+          handed_b marshal unmarshal h (poll_parsed unmarshal accepts batches) = expected_b h (map snd tr)
+          /\ Permutation (handed_b marshal unmarshal h (poll_parsed unmarshal accepts batches))
+                         (expected_b h (concat ems)).
+  Proof. exact (real_polling_bytes marshal unmarshal max_att JSON_H1 JSON_H2 JSON_H3). Qed.
+End C01_bytes.
+
+(** The instance for Go's encoding/json as modelled by jprint/jparse: H1 and H3 are C09's theorems
+    (discharged); H2 (pre-scan of the event name) is the single remaining JSON hypothesis. *)
+Theorem C01_exactly_once_intact_real_go :
+  forall (max_att : Z),
+    (forall name rest, exists tmp,
+        prescan (jprint (JArr (JStr name :: rest))) = Ok tmp /\ jparse tmp = Some (JArr [JStr name])) ->
+    forall (ems : list (list emitted)) (tr : list (nat * emitted)) batches rmax,
+      Interleave ems tr ->
+      Forall (fun it => emitted_ok jprint jparse max_att it /\ typable it) (concat ems) ->
+      concat batches = flat_map (fun p => raw_frames (raw_of (snd p))) tr ->
+      Forall (fun b => ws_accepts rmax (ws_pack b) = true) batches ->
+      forall h,
+        (forall it, In it (concat ems) -> em_name it = bh_name h ->
+                    Sio.DecodeProofs.args_ok (bh_tys h) (em_args it) = true) ->
+        Permutation (handed_b jprint jparse h (ws_parsed jparse rmax batches))
+                    (expected_b h (concat ems)).
+Proof.
+  exact (fun max_att H2 ems tr batches rmax Hil Hok Hw Hl h Hsig =>
+           proj2 (proj2 (real_websocket_go max_att H2 ems tr batches rmax Hil Hok Hw Hl) h Hsig)).
+Qed.
+
+(** Non-vacuity of the byte-level theorems: Emit("e", Binary{7,8}) satisfies the side conditions
+    and a handler func(sio.Binary) registered for "e" is handed exactly those two bytes. *)
+Example C01_bytes_side_conditions_satisfiable :
+  (emitted_ok jprint jparse 0 ex_item /\ typable ex_item)
+  /\ handed_b jprint jparse (mkBHandler [101%N] [TBin]) [raw_of ex_item] = [[BBin [7%N; 8%N]]].
+Proof. exact (conj ex_item_ok ex_item_handed). Qed.
